@@ -1,6 +1,7 @@
 //! symfield: engine E1 of /verif — symbolic execution of field-generic Plonky3 code by
 //! instantiating its field type parameter with `SymF`, plus the SMT back end.
 pub mod arena;
+pub mod normal;
 pub mod perm;
 pub mod poly;
 pub mod rewrite;
@@ -8,6 +9,7 @@ pub mod smt;
 pub mod symf;
 
 pub use arena::*;
+pub use normal::*;
 pub use perm::*;
 pub use poly::*;
 pub use rewrite::*;
